@@ -152,6 +152,14 @@ func TestTamperedBlocksRejected(t *testing.T) {
 				add("Time", "+1", func(b *types.Block) bool { eh(b).Time++; return true })
 				add("Time", "-1", func(b *types.Block) bool { eh(b).Time--; return true })
 				flagOps(func(b *types.Block) *types.BlockFlag { return &eh(b).Flags })
+				// an empty block has no body: transactions attached to it are never applied, yet must not be indexed
+				add("Body", "append-tx-to-empty-block", func(b *types.Block) bool {
+					to := w.Actors[1].Addr
+					stx := v.ReadState()
+					tx, _ := types.SignTx(&types.Transaction{Type: types.SendTx, Epoch: stx.State.Epoch(), AccountNonce: stx.State.GetNonce(w.Actors[0].Addr) + 1, To: &to, Amount: big.NewInt(1), MaxFee: sim.Dna(100)}, w.Actors[0].Key)
+					b.Body.Transactions = append(b.Body.Transactions, tx)
+					return true
+				})
 			} else {
 				ph := func(b *types.Block) *types.ProposedHeader { return b.Header.ProposedHeader }
 				hashField("ParentHash", func(b *types.Block) *common.Hash { return &ph(b).ParentHash }, func(o *types.Block) common.Hash { return o.Hash() })
